@@ -395,7 +395,31 @@ fn run_step(
                 .map(|p| (p[0].as_str().unwrap().to_string(), p[1].as_str().unwrap().to_string()))
                 .collect();
             tera::verif::depth_reset();
-            match t.add_raw_templates(tpls) {
+            // "via": "files" -- the same batch through add_template_files(path, Some(name)): every source is written to a
+            // file whose extension says nothing about the template name; "via": "single" -- one add_raw_template per entry
+            // is NOT the same operation (no batch), so it is not offered here
+            let via_files = step.get("via").and_then(|x| x.as_str()) == Some("files");
+            let r = if via_files {
+                static N: std::sync::atomic::AtomicU64 = std::sync::atomic::AtomicU64::new(0);
+                let dir = std::env::temp_dir().join(format!(
+                    "tera-verif-{}-{}",
+                    std::process::id(),
+                    N.fetch_add(1, std::sync::atomic::Ordering::SeqCst)
+                ));
+                std::fs::create_dir_all(&dir).unwrap();
+                let mut files = Vec::new();
+                for (i, (name, src)) in tpls.iter().enumerate() {
+                    let p = dir.join(format!("f{i}.tpl"));
+                    std::fs::write(&p, src).unwrap();
+                    files.push((p, Some(name.clone())));
+                }
+                let r = t.add_template_files(files);
+                let _ = std::fs::remove_dir_all(&dir);
+                r
+            } else {
+                t.add_raw_templates(tpls)
+            };
+            match r {
                 Ok(()) => json!({"ok": true, "gauge": tera::verif::depth_max()}),
                 Err(e) => {
                     let mut j = err_json(&e);
